@@ -135,6 +135,12 @@ Lemma apply_env_save_load S V orc c0 env c :
 Proof. intros CO R0 H. unfold apply_env in H. destruct (apply_json_reachable _ _ _ _ _ _ R0 H) as [R Vv].
   split; [exact R|]. split; [exact Vv|]. now apply reachable_save_load. Qed.
 
+Theorem env_save_load_l S V orc j c0 env c :
+  schema_coherentb S = true -> load S V orc j = Some c0 -> apply_env S V orc c0 env = Some c ->
+  V orc (cget S c) = true /\ load S V orc (save S c) = Some c.
+Proof. intros CO L H. destruct (load_reachable S V orc j c0 L) as [R0 _].
+  destruct (apply_env_save_load S V orc c0 env c CO R0 H) as [_ A]. exact A. Qed.
+
 (* ================================================================== *)
 (* what the model lets a harness observe                               *)
 (* ================================================================== *)
@@ -370,3 +376,49 @@ Proof. intros F r. subst r. unfold check_case. rewrite F. cbv zeta.
 Theorem sections_monitor_sound_default_l id sn S j :
   find_schema sn all_schemas = Some S -> has_code 14 (check_case (id, (sn, MDefault, j, ObsErr))).
 Proof. intros F. unfold check_case. rewrite F. cbv zeta. eapply has_code_spec; [|discriminate]. simpl. left. reflexivity. Qed.
+
+(* ================================================================== *)
+(* transfer: without code 1 the observation is the model's             *)
+(* ================================================================== *)
+Lemma no_code1_model_eqb id sn S m j o : find_schema sn all_schemas = Some S ->
+  ~ has_code 1 (check_case (id, (sn, m, j, o))) -> model_eqb S (validator_of sn) m j o = true.
+Proof. intros F N. unfold check_case in N. rewrite F in N. cbv zeta in N.
+  destruct (model_eqb S (validator_of sn) m j o); [reflexivity|]. exfalso. apply N.
+  exists (id, 1%N, 0%N). split; [|reflexivity]. simpl. left. reflexivity. Qed.
+
+Lemma model_run_load S V j c : model_run S V MLoad j = Some c -> load S V (oracle_of j) j = Some c.
+Proof. unfold model_run. cbv zeta. destruct (jhas "=notobject" j); [discriminate|auto]. Qed.
+
+(* a case without code 1 whose implementation refused: the model refuses; whose implementation accepted: the model
+   accepts a configuration c that validates, survives save + load, displays no secret, whose saved form is member by
+   member the observed one (hidden members excepted for Default(): the host's identity is generated), whose members
+   are the directly observed ones, and (LoadJSON of a well-formed document) holds every setting of the document *)
+Theorem sections_agreement_transfers_l id sn S m j o :
+  find_schema sn all_schemas = Some S -> ~ has_code 1 (check_case (id, (sn, m, j, o))) ->
+  match o with
+  | ObsErr => model_run S (validator_of sn) m j = None
+  | ObsOk saved direct _ _ _ =>
+      exists c, model_run S (validator_of sn) m j = Some c
+        /\ validator_of sn (oracle_of j) (cget S c) = true
+        /\ load S (validator_of sn) (oracle_of j) (save S c) = Some c
+        /\ leak_b S c = false
+        /\ (forall f, In f (sfields S) -> (m = MDefault -> fhidden f = false) ->
+              same_val (fkind f) (jval (fname f) (save S c)) (jval (fname f) saved))
+        /\ (m <> MDefault -> forall n v, In (n, v) direct -> v = cget S c n)
+        /\ (m = MLoad -> wf_doc S j = true -> forall f, In f (sfields S) -> is_setting f j = true ->
+              cget S c (fname f) = canon_in (jval (fname f) j))
+  end.
+Proof. intros F N. pose proof (no_code1_model_eqb id sn S m j o F N) as E.
+  destruct (find_schema_some _ _ _ F) as [I SN]. subst sn.
+  pose proof (coherent_in S I) as CO.
+  unfold model_eqb in E. destruct (model_run S (validator_of (sname S)) m j) as [c|] eqn:MR; destruct o as [|saved direct valid rt leak]; try discriminate E; [|reflexivity].
+  apply andb_true_iff in E. destruct E as [E1 E2].
+  destruct (model_run_valid_roundtrip S _ m j c CO (default_roundtrip_tables S _ I) MR) as [Vv RT].
+  exists c. split; [reflexivity|]. split; [exact Vv|]. split; [exact RT|]. split; [now apply leak_b_model|].
+  split; [|split].
+  - intros f Hf HH. apply veq_same_val. unfold saved_eq in E1. rewrite forallb_forall in E1. specialize (E1 f Hf).
+    apply orb_true_iff in E1. destruct E1 as [E1|E1]; [|exact E1]. exfalso.
+    apply andb_true_iff in E1. destruct E1 as [A B]. destruct m; try discriminate A. rewrite (HH eq_refl) in B. discriminate B.
+  - intros NM n v Hin. assert (D : direct_eq S c direct = true) by (destruct m; [exact E2|congruence|exact E2]).
+    unfold direct_eq in D. rewrite forallb_forall in D. specialize (D _ Hin). simpl in D. symmetry. now apply val_eqb_eq.
+  - intros -> WF f Hf IS. apply model_run_load in MR. exact (sections_faithful_l S _ j c f I MR WF Hf IS). Qed.
